@@ -299,7 +299,7 @@ static void fill_experiment(content<P>& prior, content<P>& c, long bw, int cls, 
         if (ok || fl == 0) M0 = M;
     }
     if (!ok) { V("fill.bins." + kcls, [&] { return vh::cat(what(), ": ", why0, cls ? " (floor reading: " + why1 + ")" : std::string()); }); return; }
-    if (c.w && c.h) vh::distinct_hash(vh::mix(vh::mix(c.hash(), prior.hash()), vh::hash_str(kcls) + (uint64_t)bw));
+    if (c.w && c.h) vh::distinct_hash(vh::mix(vh::mix(c.hash(), prior.hash()), vh::hash_str(kcls + vr.str()) + (uint64_t)bw));
     if (!post) return;
     const std::string pcls = vh::cat(tname, ".", histname);
     check_cumulative(H, M0, pcls, what());
